@@ -16,9 +16,12 @@ package defaults
 //@   ensures redirects_once: !panics ==> emits HTTPRedirect(_, _, _)
 //@
 //@ func (Redirector).redirectAPI
-//@   property C15
-//@   ensures guard: each Render(_, ?data) => (mapget(data, "location") == ro.RedirectPath || !offsite(mapget(data, "location")))
-//@   ensures param_only_when_asked: each Render(_, ?data) => (!ro.FollowRedirParam ==> mapget(data, "location") == ro.RedirectPath)
+//@   property C15 C16
+//@   -- C16: what the default redirector adds to a response does not depend on who the request is
+//@   -- about: the only header it sets is the content type
+//@   ensures[C16] headers_fixed: each HeaderSet(_, ?k, _) => k == "Content-Type"
+//@   ensures[C15] guard: each Render(_, ?data) => (mapget(data, "location") == ro.RedirectPath || !offsite(mapget(data, "location")))
+//@   ensures[C15] param_only_when_asked: each Render(_, ?data) => (!ro.FollowRedirParam ==> mapget(data, "location") == ro.RedirectPath)
 //@
 //@ func (errorHandler).ServeHTTP
 //@   property C17 C18
@@ -117,4 +120,9 @@ package defaults
 //@ func (*Router).Delete
 //@   property C10
 //@   ensures registers_delete: (emits Mux.Handle(_, _, _)) && (each Mux.Handle(?m, ?p, ?h) => m == r.deletes && p == path && h == handler)
+//@
+//@ func (*Responder).Respond
+//@   property C16
+//@   -- C16: the default responder's headers are the content type the renderer reports, nothing else
+//@   ensures headers_fixed: each HeaderSet(_, ?k, _) => k == "Content-Type"
 
